@@ -6,7 +6,7 @@ import random
 from fractions import Fraction as F
 from . import gen, oracle, common
 
-RULE = ("lp_dist on pairs/triples of profiles over 3 candidates drawn from all profiles of <=2 untied partial ballots x weights {1,2,1/2} "
+RULE = ("lp_dist on pairs/triples of profiles over 3 candidates drawn from all profiles of <=2 untied partial ballots x weights {1,2,1/2}, every fourth triple with profiles of 2 ballots holding tied positions "
         "(sampled triples, p in {1,2,3,'inf'}) incl. reordered / split / rescaled copies; BallotGraph(n) for n=2..5 (thorough 6) against the "
         "definitional node and edge sets (exhaustive); BallotGraph(profile) node weights; distinct = canonical profile pair/triple; non-trivial = "
         "profiles with different distributions")
@@ -18,9 +18,18 @@ def cases(tier, seed):
     for nb, ws in ((1, (1, 2)), (2, (1, 2, F(1, 2)))):
         for cands, bl in gen.profiles_exhaustive(3, nb, [F(w) for w in ws]):
             profs.append(bl)
+    # rankings with tied positions next to untied rankings of the same candidates ({A,B}>C vs A>B>C are different rows of the distribution)
+    tied = []
+    for cands, bl in gen.profiles_exhaustive(3, 2, [F(1), F(2)], ties=True):
+        if any(len(s) > 1 for r, w in bl for s in r):
+            tied.append(bl)
     cs = []
-    for _ in range(1200 if tier == "quick" else 12000):
-        cs.append(("lp", rng.choice(profs), rng.choice(profs), rng.choice(profs)))
+    n_lp = 1200 if tier == "quick" else 12000
+    for k in range(n_lp):
+        if k % 4 == 3:
+            cs.append(("lp", rng.choice(tied), rng.choice(tied if k % 8 == 3 else profs), rng.choice(profs)))
+        else:
+            cs.append(("lp", rng.choice(profs), rng.choice(profs), rng.choice(profs)))
     for n in ((2, 3, 4, 5) if tier == "quick" else (2, 3, 4, 5, 6)):
         cs.append(("graph", n))
     for bl in profs[:: (7 if tier == "quick" else 2)]:
